@@ -177,6 +177,7 @@ ChanApply0(p0, e) ==
     [] e.ev = "creq" ->
          [p |-> [p EXCEPT !.creq = @ \cup {e.t}, !.native = IF e.kind = "native" THEN @ \cup {e.t} ELSE @],
           bad |-> {}]
+    [] e.ev = "cdone" -> [p |-> [p EXCEPT !.creq = @ \ {e.t}], bad |-> {}]   \* t's scope absorbed the request; t carries on
     [] e.ev = "quiescent" ->
          \* the loop is idle: everybody still in progress is blocked, nothing is in transit
          LET lost == KUndelivered(p)
